@@ -60,7 +60,7 @@ type nctl struct {
 }
 
 var pausePc = map[string]int{
-	"wait.token": 3, "wait.probed": 4, "wait.released": 5,
+	"wait.fast": 1, "wait.token": 3, "wait.probed": 4, "wait.released": 5,
 	"set.token": 2, "set.stored": 3, "set.closed": 4,
 	"close.token": 2, "close.closed-b": 3,
 }
@@ -141,12 +141,15 @@ func (c *nctl) settle() []string {
 	return last
 }
 
-func fmtStatuses(st []string) string {
+func (c *nctl) fmtStatuses(st []string) string {
 	out := make([]string, len(st))
 	for i, s := range st {
 		switch {
 		case s == "new":
 			out[i] = fmt.Sprintf("%d:new", i)
+		case s == "running" && c.threads[i].parked():
+			// let go from wait.released and not back: it sits in its select
+			out[i] = fmt.Sprintf("%d:parked", i)
 		case s == "running":
 			out[i] = fmt.Sprintf("%d:blocked", i)
 		case strings.HasPrefix(s, "held:"):
@@ -174,7 +177,7 @@ func genNotifyProfile(w *bufio.Writer, seed uint64, n, length int) {
 		fmt.Fprintf(w, "nt.init %d => ok\n", init)
 		emit := func(ev string) []string {
 			st := c.settle()
-			fmt.Fprintf(w, "%s => ok %s\n", ev, fmtStatuses(st))
+			fmt.Fprintf(w, "%s => ok %s\n", ev, c.fmtStatuses(st))
 			return st
 		}
 		maxTh := 2 + r.intn(4)
@@ -189,7 +192,7 @@ func genNotifyProfile(w *bufio.Writer, seed uint64, n, length int) {
 				if s == "new" || strings.HasPrefix(s, "held:") {
 					steppable = append(steppable, j)
 				}
-				if strings.HasPrefix(s, "held:") && s != "held:wait.released" {
+				if strings.HasPrefix(s, "held:") && s != "held:wait.released" && s != "held:wait.fast" {
 					tokenHeld = true
 				}
 			}
@@ -225,7 +228,8 @@ func genNotifyProfile(w *bufio.Writer, seed uint64, n, length int) {
 			case len(steppable) > 0:
 				j := steppable[r.intn(len(steppable))]
 				// stepping a thread that will block on the token while another already does is avoided
-				if st[j] == "new" && tokenHeld && barrierBlocked >= 1 {
+				willTryToken := (st[j] == "new" && c.threads[j].kind != "wait") || st[j] == "held:wait.fast"
+				if willTryToken && tokenHeld && barrierBlocked >= 1 {
 					continue
 				}
 				if st[j] == "held:wait.released" {
